@@ -18,7 +18,7 @@
 (* Buffers are modelled cell by cell so that stale bytes, terminators and  *)
 (* allocation state are part of the specification (C03).                   *)
 (***************************************************************************)
-EXTENDS NmfuExpr, TLC
+EXTENDS NmfuExpr, TLC, FiniteSets
 
 END == 256          \* the end-of-input symbol
 TERMINATING == -9   \* target removed as unreachable (its actions always override it)
